@@ -18,7 +18,9 @@ def sh(cmd: str, timeout: int = 1500) -> tuple[int, str]:
 
 
 def one(n: str) -> dict:
-    wt, out = f"/tmp/refac/w{n}", f"{VERIF}/refactorings/R{n}"
+    # "3" -> refactorings/R3 (behaviour-preserving rewrite); "B2" -> refactorings/B2 (observable change that is none of
+    # the properties' business)
+    wt, out = f"/tmp/refac/w{n}", f"{VERIF}/refactorings/{n if n[0].isalpha() else 'R' + n}"
     head = sh("git -C /repo rev-parse HEAD")[1].strip()
     sh(f"git -C /repo worktree remove --force {wt}; mkdir -p /tmp/refac && git -C /repo worktree add -q --detach {wt} {head}")
     rc, o = sh(f"git -C {wt} apply {out}/patch.diff")
